@@ -5,8 +5,11 @@ through breezy.osutils).
 Model: lean/BreezyVerif/Model/C47.lean (literal `is_inside`, `is_inside_any`,
 `minimum_path_selection`, `splitpath`, `joinpath`, `split_lines`,
 `chunks_to_lines` — both the crate-internal one and the PyChunksToLinesIterator
-that Python actually calls — `format_highres_date`, `unpack_highres_date` over
-integer nanoseconds).  Theorems: Props/C47.lean.
+that Python actually calls — `unpack_highres_date`, and `format_highres_date`
+twice: over whole nanoseconds (`formatHighresNs`) and over arbitrary f64
+timestamps given as dyadic rationals num/2^k (`formatHighresF64`: IEEE
+round-to-nearest-even of `t - t.floor()`, exact ties-to-even `{:.9}` rounding,
+the dropped leading digit).  Theorems: Props/C47.lean.
 
 T2 on every run:
   * the Python-visible functions, rebuilt from the working tree (RUST), against
@@ -14,16 +17,28 @@ T2 on every run:
   * the crate-internal `split_lines` / `chunks_to_lines` of lib.rs (which no
     Python binding reaches) through a small Rust probe binary built from the
     working tree's crates/osutils on every run;
-  * dates: timestamps with fraction k/512 s (exact in f64 and in 9 decimals)
-    so that no float rounding is involved.  The model has two formatters: the
-    code as written (`fmt`) and the intended behaviour (`fmtfix`, the proposed
-    patch).  Where they agree the implementation must agree with both; where
-    they differ (the two F11 defect families) the implementation must equal
-    one of them, and the oracle reports the round-trip failure with the family.
+  * dates (a): timestamps with fraction k/512 s (exact in f64 and in 9
+    decimals) against `fmt` — the implementation must print exactly the
+    model's string (a regression to the pre-1e2630f formatter is a mismatch);
+  * dates (b): arbitrary f64 timestamps (random mantissas/exponents, the last
+    f64 values below a whole second, fractions 1-2^-j, neighbours of the
+    9-digit ties (m+1/2)e-9 and exact ties k/1024, tiny and negative values)
+    against `fmt64` (code as written) and `fmt64c` (with the carry into the
+    seconds).  Where the two agree the implementation must agree; they differ
+    exactly on the carry family, where the implementation must equal one of
+    them (counter date64:impl=...);
+  * unpack on every produced string: the model's integer nanoseconds are turned
+    into the f64 the code returns (`timestamp as f64 + fraction`) harness-side.
 Oracle (independent of the model): mps subset / exactly-one cover / antichain /
 inside_any agreement, join∘split = id on normalised paths, split∘join = id on
 valid components, concat(split_lines t) = t and line shape, chunking
-independence, unpack(format(t, off)) == (t, off).
+independence, unpack(format(t, off)) == (t, off) on whole nanoseconds and
+|unpack(format(t, off)) - t| <= 0.5e-9 + f64 rounding for every f64.
+
+Finding families (classifier on the concrete input, recorded at most 3x per run):
+  highres-fraction-rounds-up-to-next-second   f64 fraction >= 1 - 0.5e-9: printed `.000000000`
+      in the *floor* second, read back one second early (theorem date_f64_carry_loses_second)
+  highres-neg-offset-not-whole-hours, highres-neg-fractional-timestamp   (F11, fixed by 1e2630f)
 
 Mutants this was built against (all caught, see the final report):
   M1 path.rs  minimum_path_selection sorts by the path *string* instead of the
@@ -38,10 +53,17 @@ Mutants this was built against (all caught, see the final report):
   M9 path.rs  splitpath keeps "." segments                                -> T2 mismatch + oracle
   M10 path.rs joinpath no longer rejects "" components                    -> T2 + oracle (accepted but not split back)
   M12 path.rs minimum_path_selection early return `len < 3`               -> oracle
+  M13 time.rs fraction truncated (`((t-floor)*1e9) as u64`) instead of rounded -> f64 oracle (off by 1e-9) + T2
+  M14 time.rs seconds from `t as i64` again (1e2630f reverted)            -> f64 oracle (t=-0.3) + T2
+  M15 time.rs carry patch decided by `t - t.floor() >= 0.9999999995` (an f64 literal just below the
+              real boundary) instead of by the printed digit              -> f64 oracle at t=0.9999999995 (one second too many)
+  M16 path.rs the scan stops dropping descendants after 24 sorted paths   -> oracle (sets of 20..50 paths)
+  P1 (patch)  carry into the seconds when the fraction prints as 1.000000000 -> clean, date64:impl=carries
   H1 (harmless) is_inside_any rewritten with `iter().any`                -> clean
 """
 import itertools
 import json
+import math
 import os
 import shutil
 import subprocess
@@ -53,28 +75,40 @@ THEOREMS = [
     "mps_subset", "mps_antichain", "mps_covers_exactly_one", "mps_characterisation",
     "inside_any_iff", "inside_any_mps",
     "split_join_id", "join_split_id", "split_join_split",
+    "components_joinSlash", "relOk_joinSlash", "inside_bytes", "mps_bytes",
     "split_lines_concat", "split_lines_shape", "chunks_to_lines_eq", "chunks_to_lines_py_eq",
     "split_lines_py_eq", "chunks_to_lines_chunking_independent",
-    "calendar_inverse", "date_roundtrip", "format_eq_fixed", "date_roundtrip_partial",
-    "date_roundtrip_witness_offset", "date_roundtrip_witness_negfrac",
+    "calendar_inverse", "date_roundtrip",
+    "fracUnits_le", "formatF64_eq_ns", "formatF64Carry_eq_ns", "date_roundtrip_f64_partial",
+    "date_f64_carry_loses_second", "carry_iff", "date_roundtrip_f64_carry", "fracUnits_close", "fracF64_exact",
+    "roundedNanos_close", "date_f64_witness_carry", "date_f64_witness_carry_small", "date_f64_witness_tiny_negative",
 ]
 RUST = ("osutils-py",)
 RULE = ("paths: sets of relative paths over components {a,b,ab,a-b,a+,-} (depth<=3; all sets of <=3 paths of "
-        "depth<=2 enumerated), non-trivial = some path inside another or sharing a byte prefix; strings over "
+        "depth<=2 enumerated), plus hidden/dotted/UTF-8 components {.a,a.,..a,é,aé,ß,a!,'a b',中} and sets of 20..50 "
+        "paths, non-trivial = some path inside another or sharing a byte prefix; strings over "
         "{a,b,/,.} for splitpath (all up to a length), non-trivial = contains '/' or '.'; texts over {a,b,\\n,\\r} "
         "(all up to a length) with all chunkings of short texts, non-trivial = contains a newline; timestamps on a "
-        "calendar-corner grid with fraction k/512 s x whole-minute offsets, non-trivial = fraction or offset non-zero")
+        "calendar-corner grid with fraction k/512 s x whole-minute offsets, non-trivial = fraction or offset non-zero; "
+        "f64 timestamps that are not whole nanoseconds (random mantissas with exponents 2^-90..2^33, the last f64 values "
+        "below a whole second, fractions 1-2^-j, neighbours of 9-digit ties, odd k/1024, tiny/negative values), all "
+        "non-trivial")
 ASSUMPTIONS = [
-    "timestamps are compared in integer nanoseconds on the grid k/512 s, |t| < 2^43 s, where the f64 arithmetic of "
-    "time.rs and the 9-digit fraction are exact; IEEE rounding of other f64 values is not modelled",
+    "whole-nanosecond timestamps are taken on the grid k/512 s, |t| < 2^43 s, where the f64 arithmetic of time.rs and "
+    "the 9-digit fraction are exact; other f64 timestamps are modelled as dyadic rationals with IEEE "
+    "round-to-nearest-even for `t - t.floor()` and exact ties-to-even rounding for `{:.9}` (both compared with the "
+    "compiled code on every generated value)",
+    "unpack_highres_date's final `timestamp as f64 + fraction` (IEEE addition and decimal->f64 parsing) is applied "
+    "harness-side to the model's integer nanoseconds",
     "chrono's %a %Y-%m-%d %H:%M:%S formatter/parser is specified by the model's proleptic Gregorian calendar for "
     "years 0..9999 and compared with chrono on every generated date",
     "paths: relative, no '..' segment, no leading '.' segment (std::path::Component ordering of ParentDir/CurDir is "
-    "not modelled)",
+    "not modelled); str paths only (non-UTF-8 bytes / to_string_lossy are not exercised)",
 ]
 TRUSTED = [
-    "std::path::Path::components / starts_with, PathBuf::push, memchr, chrono, f64 formatting are external and are "
-    "modelled (split on '/', byte search, calendar arithmetic), tied by the correspondence run only",
+    "std::path::Path::components / starts_with, PathBuf::push, memchr, chrono, f64 formatting/parsing are external "
+    "and are modelled (split on '/', byte search, calendar arithmetic, exact decimal rounding), tied by the "
+    "correspondence run only",
     "the Rust probe (source embedded in harness/checks/c47.py) that exposes lib.rs split_lines/chunks_to_lines",
 ]
 
@@ -193,6 +227,8 @@ def probe(lines):
 # paths
 
 COMPS = ["a", "b", "ab", "a-b", "a+", "-"]
+# hidden names, trailing dot, multi-byte UTF-8 (compared bytewise by Path::cmp), a name sorting before '/'
+XCOMPS = [".a", "a.", "..a", "\u00e9", "a\u00e9", "\u00df", "a!", "a b", "\u4e2d"]
 
 
 def _all_paths(depth, alphabet=COMPS):
@@ -228,6 +264,50 @@ def gen_path_sets(ctx):
                 s.add(st.rsplit("/", 1)[0])
             else:
                 s.add(rng.choice(big))
+        l = sorted(s)
+        rng.shuffle(l)
+        yield l
+    # hidden / dotted / non-ASCII components mixed into the clustered shape
+    allc = COMPS + XCOMPS
+    for _ in range(ctx.pick(600, 6000)):
+        n = rng.choice([2, 3, 4, 5, 6])
+        stems = ["/".join(rng.choice(allc) for _ in range(rng.choice([1, 1, 2]))) for _ in range(2)]
+        s = set()
+        while len(s) < n:
+            st = rng.choice(stems)
+            r = rng.random()
+            if r < 0.3:
+                s.add(st)
+            elif r < 0.6:
+                s.add(st + "/" + rng.choice(allc))
+            elif r < 0.8:
+                s.add(st + rng.choice([".", "-", "!", "\u00e9", " ", ".a"]))   # byte prefix, not component prefix
+            elif r < 0.9:
+                s.add(st.rsplit("/", 1)[0])
+            else:
+                s.add(rng.choice(allc) + "/" + rng.choice(allc))
+        l = sorted(s)
+        rng.shuffle(l)
+        yield l
+    # large sets (20..50 paths): long scans with many dropped descendants between kept paths
+    for _ in range(ctx.pick(120, 1200)):
+        n = rng.randrange(20, 51)
+        pool = allc if rng.random() < 0.4 else COMPS
+        stems = ["/".join(rng.choice(pool) for _ in range(rng.choice([1, 2, 2, 3]))) for _ in range(rng.choice([3, 5, 8]))]
+        s = set()
+        while len(s) < n:
+            st = rng.choice(stems)
+            r = rng.random()
+            if r < 0.15:
+                s.add(st)
+            elif r < 0.55:
+                s.add(st + "/" + "/".join(rng.choice(pool) for _ in range(rng.choice([1, 1, 2]))))
+            elif r < 0.75:
+                s.add(st + rng.choice(["-", "+", "b", "-b", ".", "!"]))
+            elif r < 0.85:
+                s.add(st.rsplit("/", 1)[0])
+            else:
+                s.add("/".join(rng.choice(pool) for _ in range(rng.choice([1, 2, 3]))))
         l = sorted(s)
         rng.shuffle(l)
         yield l
@@ -293,8 +373,13 @@ def run_paths(ctx, osu):
         for f in fails[:1]:
             ctx.violation(case, "minimum_path_selection(%r): %s" % (paths, f))
         ctx.case(case, nontrivial=path_nontrivial(paths))
-        ctx.count("mps:n=%d" % len(paths))
-        ctx.count("mps:kept=%d" % (canon.count(",") + 1 if canon != "~" else 0))
+        ctx.count("mps:n=%s" % (len(paths) if len(paths) < 10 else "%d0+" % (len(paths) // 10)))
+        kept = canon.count(",") + 1 if canon != "~" else 0
+        ctx.count("mps:kept=%s" % (kept if kept < 10 else "%d0+" % (kept // 10)))
+        if any(ord(ch) > 127 for p in paths for ch in p):
+            ctx.count("mps:non-ascii")
+        if any(seg.startswith(".") for p in paths for seg in p.split("/")):
+            ctx.count("mps:hidden-name")
         cases.append(case); lines.append("mps " + hxl(paths)); outs.append(canon)
         # inside / inside_any on probes drawn from the same neighbourhood
         probes = list(paths[:3])
@@ -546,13 +631,39 @@ def gen_offsets(ctx):
 FRACS = [0, 0, 256, 1, 511, 128, 384, 3, 64]
 
 
+HALF_NS = Fraction(1, 2 * NS)
+CARRY_FAMILY = "highres-fraction-rounds-up-to-next-second"
+
+
+def f64_fraction(t):
+    """the f64 value `t - t.floor()` (one IEEE subtraction, as in time.rs)"""
+    return t - math.floor(t)
+
+
 def classify_date(ns, off):
-    """family of the two known F11 defect input classes, from the concrete input"""
+    """family of the two F11 defect input classes (fixed in 1e2630f), from the concrete input"""
     if off < 0 and off % 3600 != 0:
         return "highres-neg-offset-not-whole-hours"
     if ns < 0 and ns % NS != 0:
         return "highres-neg-fractional-timestamp"
     return None
+
+
+def classify_f64(t, off):
+    """family from the concrete input: the f64 fraction is >= 1 - 0.5e-9, i.e. `{:.9}` prints 1.000000000"""
+    if Fraction(f64_fraction(t)) >= 1 - HALF_NS:
+        return CARRY_FAMILY
+    return None
+
+
+def ulp(x):
+    return math.ulp(x)
+
+
+def f64_tolerance(t, back):
+    """|unpack(format(t)) - t| allowed: half a unit of the 9th digit, plus the f64 rounding of the parsed
+    fraction, of `t - floor(t)` and of the final `timestamp + fraction` addition"""
+    return HALF_NS + Fraction(ulp(max(abs(t), abs(back), 1.0))) + Fraction(1, 2 ** 52)
 
 
 def to_ns(t):
@@ -571,33 +682,149 @@ ERRMAP = [
 ]
 
 
-def unpack_canon(osu, s):
+def unpack_raw(osu, s):
+    """('ok', t, off) or ('err', kind)"""
     try:
         t, off = osu.unpack_highres_date(s)
     except ValueError as e:
         for k, v in ERRMAP:
             if k in str(e):
-                return v
-        return "E:Other:%s" % e
-    ns = to_ns(t)
-    return "%s %d" % (ns if ns is not None else "inexact:%r" % t, off)
+                return ("err", v)
+        return ("err", "E:Other:%s" % e)
+    return ("ok", t, off)
+
+
+def unpack_canon(osu, s):
+    r = unpack_raw(osu, s)
+    if r[0] == "err":
+        return r[1]
+    return "%r %d" % (r[1], r[2])
+
+
+def model_unpack_canon(reply):
+    """the model answers `nanoseconds offset`; time.rs returns `timestamp as f64 + fraction` where the
+    fraction is the correctly rounded f64 of the printed decimal: that last (external, IEEE) step is done here"""
+    if reply.startswith("E:") or reply in ("bad-op", "unsupported"):
+        return reply
+    ns, off = reply.split(" ")
+    ns = int(ns)
+    return "%r %d" % (float(ns // NS) + float("0.%09d" % (ns % NS)), int(off))
+
+
+def diff_unpack(ctx, cases, strings, accept_only=False):
+    lines = ["unp " + hx(s) for s in strings]
+    mo = ctx.model(lines)
+    for c, l, s, m in zip(cases, lines, strings, mo):
+        ctx.traces += 1
+        i = unpack_canon(ctx._osu, s)
+        mm = model_unpack_canon(m)
+        if accept_only:
+            i = i if i.startswith("E:") else "accept"
+            mm = mm if mm.startswith("E:") or mm in ("bad-op", "unsupported") else "accept"
+            ctx.count("unpack-malformed:%s" % i)
+        if i != mm:
+            ctx.mismatch(c, i, mm, line=l)
+
+
+def _violation(ctx, case, what, family):
+    """violations of a family computed from the input are recorded at most 3 times per run (all are counted),
+    so that they cannot crowd out a violation without family"""
+    if family is not None:
+        ctx.count("violations:%s" % family)
+        seen = ctx.extra.setdefault("family_violations", {})
+        seen[family] = seen.get(family, 0) + 1
+        if seen[family] > 3:
+            return
+    ctx.violation(case, what, family=family)
 
 
 def date_case(ctx, osu, ns, off, oracle=True):
-    """returns (case, fmt-impl-string, line-fmt, line-fmtfix)"""
+    """whole-nanosecond timestamp: returns (case, formatted string)"""
     t = ns / NS if ns % NS else float(ns // NS)
     assert to_ns(t) == ns
     s = osu.format_highres_date(t, off)
     case = dict(op="date", ns=ns, offset=off)
     if oracle and off % 60 == 0:
-        back = unpack_canon(osu, s)
-        if back != "%d %d" % (ns, off):
-            ctx.violation(case, "unpack_highres_date(format_highres_date(%r, %d) = %r) gives %s, expected (%r, %d)"
-                          % (t, off, s, back, t, off), family=classify_date(ns, off))
+        back = unpack_raw(osu, s)
+        if back != ("ok", t, off):
+            _violation(ctx, case, "unpack_highres_date(format_highres_date(%r, %d) = %r) gives %r, expected (%r, %d)"
+                       % (t, off, s, back[1:], t, off), classify_date(ns, off))
     return case, s
 
 
+def f64_case(ctx, osu, t, off):
+    """arbitrary f64 timestamp: (case, formatted string); oracle = read back within half a unit of the 9th digit"""
+    s = osu.format_highres_date(t, off)
+    case = dict(op="date64", t=t.hex(), offset=off)
+    back = unpack_raw(osu, s)
+    if back[0] != "ok":
+        _violation(ctx, case, "unpack_highres_date rejects format_highres_date(%r, %d) = %r: %s" % (t, off, s, back[1]),
+                   classify_f64(t, off))
+    else:
+        err = abs(Fraction(back[1]) - Fraction(t))
+        if back[2] != off or err > f64_tolerance(t, back[1]):
+            _violation(ctx, case, "unpack_highres_date(format_highres_date(%r, %d) = %r) gives (%r, %d): off by %.3g s "
+                       "(allowed: 5e-10 + f64 rounding)" % (t, off, s, back[1], back[2], float(err)),
+                       classify_f64(t, off))
+    return case, s
+
+
+def gen_f64(ctx):
+    """f64 timestamps that are NOT whole nanoseconds: random mantissas, fractions next to 1 (the carry into the
+    seconds), next to the 9-digit rounding ties, tiny and negative values"""
+    rng = ctx.rng
+    out = []
+    nxt = math.nextafter
+
+    def around(x, n=2):
+        out.append(x)
+        u, d = x, x
+        for _ in range(n):
+            u = nxt(u, math.inf); d = nxt(d, -math.inf)
+            out.append(u); out.append(d)
+
+    # fixed corners (the audit's reproducer first)
+    for x in (2097152.9999999995, 0.9999999996, 0.9999999995, 0.9999999994, -1e-20, -5e-324, 5e-324, -2.0 ** -60,
+              1e-10, 5e-10, 4.9999999e-10, -0.3, 0.1, 1700000000.1234567, 1.0000000005, -1.0000000005, -0.0000000004):
+        around(x, 1)
+    # fraction 1 - 2^-j on top of whole seconds of every magnitude f64 can still resolve it at
+    for j in range(20, 54):
+        for e in range(0, max(1, 53 - j)):
+            if rng.random() < ctx.pick(0.25, 1.0):
+                sec = rng.randrange(2 ** e, 2 ** (e + 1)) if e else rng.choice([0, 1])
+                sec = rng.choice([sec, -sec - 1])
+                around(sec + (1.0 - 2.0 ** -j), 1)
+    # just below the next second: the last few f64 values before an integer
+    for _ in range(ctx.pick(300, 3000)):
+        sec = rng.choice([rng.randrange(0, 2 ** rng.randrange(1, 34)), -rng.randrange(1, 2 ** rng.randrange(1, 34))])
+        x = float(sec)
+        for _ in range(rng.randrange(1, 6)):
+            x = nxt(x, -math.inf)
+            out.append(x)
+    # fraction around 1 - 0.5e-9 (the boundary of the carry) and around other 9-digit ties (m + 1/2) * 1e-9
+    for _ in range(ctx.pick(400, 4000)):
+        sec = rng.choice([0, 1, -1, rng.randrange(-2 ** 20, 2 ** 20), rng.randrange(0, 2 ** 23)])
+        m = rng.choice([NS - 1, NS - 1, NS - 2, 0, rng.randrange(NS)])
+        around(sec + (2 * m + 1) / (2.0 * NS), 2)
+    # exact 9-digit ties: odd multiples of 1/1024 (ties-to-even decides the last digit)
+    for _ in range(ctx.pick(200, 2000)):
+        sec = rng.choice([0, -1, 1, rng.randrange(-2 ** 30, 2 ** 30)])
+        out.append(sec + (2 * rng.randrange(512) + 1) / 1024.0)
+    # random mantissas and exponents
+    for _ in range(ctx.pick(1500, 15000)):
+        m = rng.randrange(2 ** 52, 2 ** 53)
+        e = rng.randrange(-90, 34)
+        x = math.ldexp(m, e - 52)
+        out.append(x if rng.random() < 0.6 else -x)
+    # what time.time() looks like, and short decimals
+    for _ in range(ctx.pick(500, 5000)):
+        out.append(rng.randrange(0, 2 ** 31) + rng.random())
+        out.append(round(rng.uniform(-1e6, 1e6), rng.randrange(1, 12)))
+    return [x for x in out if math.isfinite(x) and to_ns(x) is None or x in (0.9999999995,)]
+
+
 def run_dates(ctx, osu):
+    ctx._osu = osu
     secs = gen_seconds(ctx)
     offs = gen_offsets(ctx)
     rng = ctx.rng
@@ -615,49 +842,71 @@ def run_dates(ctx, osu):
     # offsets that are not whole minutes: compared with the model only
     odd = [(rng.choice(secs) * NS + rng.choice(FRACS) * 1953125, rng.choice([1, -1, 59, -59, 61, -61, 90, -90, 3599, -3601, 5430]))
            for _ in range(ctx.pick(100, 1000))]
-    cases, impl, l_fmt, l_fix = [], [], [], []
+    cases, impl, lines = [], [], []
     for ns, off in items + odd:
         case, s = date_case(ctx, osu, ns, off)
         cases.append(case); impl.append(s)
-        l_fmt.append("fmt %d %d" % (ns, off)); l_fix.append("fmtfix %d %d" % (ns, off))
-    m_fmt = ctx.model(l_fmt)
-    m_fix = ctx.model(l_fix)
-    for case, s, a, b, la in zip(cases, impl, m_fmt, m_fix, l_fmt):
-        ns, off = case["ns"], case["offset"]
-        ctx.traces += 1
-        h = hx(s)
-        fam = classify_date(ns, off) if off % 60 == 0 else ("odd-offset" if off < 0 or (ns < 0 and ns % NS) else None)
+        lines.append("fmt %d %d" % (ns, off))
         ctx.case(case, nontrivial=(ns % NS != 0 or off != 0))
-        ctx.count("date:%s" % ("agree" if a == b else "defect-family"))
         ctx.count("date:offsign=%s frac=%s tsign=%s" % ("-" if off < 0 else "+", "y" if ns % NS else "n", "-" if ns < 0 else "+"))
+    mo = ctx.model(lines)
+    model_strings = []
+    for case, s, m, l in zip(cases, impl, mo, lines):
+        ctx.traces += 1
+        if m == "unsupported":
+            ctx.count("date:out-of-model-range")
+            continue
+        model_strings.append(bytes.fromhex(m).decode())
+        if hx(s) != m:
+            ctx.mismatch(case, s, model_strings[-1], line=l)
+
+    # ---- arbitrary f64 timestamps
+    cases64, impl64, l_w, l_c = [], [], [], []
+    for t in gen_f64(ctx):
+        off = rng.choice(offs) if rng.random() < 0.5 else 0
+        # keep the local date inside the four-digit years
+        if not (-62135596800 + 2 * DAY < t + off < 253402300800 - 2 * DAY):
+            continue
+        case, s = f64_case(ctx, osu, t, off)
+        num, den = t.as_integer_ratio()
+        k = den.bit_length() - 1
+        cases64.append(case); impl64.append(s)
+        l_w.append("fmt64 %d %d %d" % (num, k, off)); l_c.append("fmt64c %d %d %d" % (num, k, off))
+        fam = classify_f64(t, off)
+        ctx.case(case, nontrivial=True)
+        ctx.count("date64:%s" % ("carry-family" if fam else "plain"))
+        ctx.count("date64:tsign=%s k=%s" % ("-" if t < 0 else "+", "<=30" if k <= 30 else "<=52" if k <= 52 else ">52"))
+    m_w = ctx.model(l_w)
+    m_c = ctx.model(l_c)
+    for case, s, a, b, la in zip(cases64, impl64, m_w, m_c, l_w):
+        ctx.traces += 1
         if "unsupported" in (a, b):
-            if a == b:
-                ctx.count("date:out-of-model-range")
-                continue
+            ctx.count("date64:out-of-model-range")
+            continue
+        h = hx(s)
+        t = float.fromhex(case["t"])
         if a == b:
             if h != a:
-                ctx.mismatch(case, h, a, line=la)
+                ctx.mismatch(case, s, bytes.fromhex(a).decode(), line=la)
         else:
-            # the two formatters differ only on the F11 families: the code must be one of them
-            if fam is None:
-                ctx.mismatch(case, h, "fmt=%s fmtfix=%s (models differ outside the defect families)" % (a, b), line=la)
+            # the as-written and the carrying formatter differ exactly on the carry family
+            if classify_f64(t, case["offset"]) is None:
+                ctx.mismatch(case, s, "models differ outside the carry family: as-written=%s carry=%s"
+                             % (bytes.fromhex(a).decode(), bytes.fromhex(b).decode()), line=la)
             elif h == a:
-                ctx.count("date:impl=as-written")
+                ctx.count("date64:impl=as-written(no carry)")
             elif h == b:
-                ctx.count("date:impl=intended")
+                ctx.count("date64:impl=carries")
             else:
-                ctx.mismatch(case, h, "fmt=%s | fmtfix=%s" % (a, b), line=la)
-    # unpack: every string the implementation produced + the intended strings + malformed ones
+                ctx.mismatch(case, s, "as-written=%s | carry=%s" % (bytes.fromhex(a).decode(), bytes.fromhex(b).decode()), line=la)
+            model_strings.append(bytes.fromhex(b).decode())
+
+    # unpack: every string the implementation produced + the model's strings + malformed ones
     ustr = []
     seen = set()
-    for s in impl:
+    for s in impl + impl64 + model_strings:
         if s not in seen:
             seen.add(s); ustr.append(s)
-    for b in m_fix:
-        if b != "unsupported":
-            s = bytes.fromhex(b).decode()
-            if s not in seen:
-                seen.add(s); ustr.append(s)
     good = [s for s in ustr[:400]]
     mal = []
     for s in good[:ctx.pick(150, 400)]:
@@ -689,26 +938,15 @@ def run_dates(ctx, osu):
             mal.append(s[:18] + "61" + s[20:])                 # minute 61
     mal += ["", " ", "Mon", "Mon ", "Thu 1970-01-01 00:00:00", "Thu 1970-01-01 00:00:00.5", "Thu 1970-01-01 00:00:00.5 ",
             "Thu 1970-01-01 00:00:00.5 +", "Thu 1970-01-01 00:00:00.5 -", "Thu 1970-01-01 00:00:00.500000000 99999999999"]
-    cases, lines, outs = [], [], []
-    for s in ustr:
-        c = dict(op="unpack", s=s)
-        cases.append(c); lines.append("unp " + hx(s)); outs.append(unpack_canon(osu, s))
+    cases = [dict(op="unpack", s=s) for s in ustr]
+    for c in cases:
         ctx.case(c, nontrivial=True)
-    ctx.diff(cases, lines, outs)
+    diff_unpack(ctx, cases, ustr)
     # malformed stream: accept/reject + error kind only
-    cases, lines, outs = [], [], []
-    for s in mal:
-        c = dict(op="unpack-malformed", s=s)
-        o = unpack_canon(osu, s)
-        cases.append(c); lines.append("unp " + hx(s)); outs.append(o if o.startswith("E:") else "accept")
+    cases = [dict(op="unpack-malformed", s=s) for s in mal]
+    for c in cases:
         ctx.case(c, nontrivial=True)
-        ctx.count("unpack-malformed:%s" % (o if o.startswith("E:") else "accept"))
-    mo = ctx.model(lines)
-    for c, l, i, m in zip(cases, lines, outs, mo):
-        ctx.traces += 1
-        mm = m if m.startswith("E:") else "accept"
-        if i != mm:
-            ctx.mismatch(c, i, mm, line=l)
+    diff_unpack(ctx, cases, mal, accept_only=True)
 
 
 # --------------------------------------------------------------------------
@@ -807,13 +1045,31 @@ def _replay_one(ctx, osu, case):
             ctx.violation(case, "%s(%r) = %r: %s" % (op, chunks, got, why or "differs from split_lines of the concatenation"))
         return dict(impl=hxl(got), model=m)
     if op == "date":
+        ctx._osu = osu
         c, s = date_case(ctx, osu, case["ns"], case["offset"])
-        a, b = ctx.model(["fmt %d %d" % (case["ns"], case["offset"]), "fmtfix %d %d" % (case["ns"], case["offset"])])
+        a = ctx.model(["fmt %d %d" % (case["ns"], case["offset"])])[0]
+        ctx.traces += 1
         dec = lambda h: bytes.fromhex(h).decode() if h not in ("unsupported", "-") else h
-        return dict(impl=s, model_as_written=dec(a), model_intended=dec(b), unpacked=unpack_canon(osu, s))
+        if a != "unsupported" and hx(s) != a:
+            ctx.mismatch(case, s, dec(a))
+        return dict(impl=s, model=dec(a), unpacked=unpack_canon(osu, s))
+    if op == "date64":
+        ctx._osu = osu
+        t = float.fromhex(case["t"])
+        c, s = f64_case(ctx, osu, t, case["offset"])
+        num, den = t.as_integer_ratio()
+        k = den.bit_length() - 1
+        a, b, u = ctx.model(["fmt64 %d %d %d" % (num, k, case["offset"]), "fmt64c %d %d %d" % (num, k, case["offset"]),
+                             "units %d %d" % (num, k)])
+        ctx.traces += 1
+        dec = lambda h: bytes.fromhex(h).decode() if h not in ("unsupported", "-") else h
+        if "unsupported" not in (a, b) and hx(s) not in (a, b):
+            ctx.mismatch(case, s, "as-written=%s | carry=%s" % (dec(a), dec(b)))
+        return dict(t=t, impl=s, model_as_written=dec(a), model_with_carry=dec(b), fraction_units=u,
+                    unpacked=unpack_canon(osu, s), family=classify_f64(t, case["offset"]))
     if op in ("unpack", "unpack-malformed"):
         o = unpack_canon(osu, case["s"])
-        m = ctx.model(["unp " + hx(case["s"])])[0]
+        m = model_unpack_canon(ctx.model(["unp " + hx(case["s"])])[0])
         return dict(impl=o, model=m)
     raise ValueError("unknown op %r" % op)
 
